@@ -102,7 +102,7 @@ def correspondence(ctx):
                      "Eval vm_compute in failing (fun c => match c with (p, t, b) => tbl_eqb_on (map fst t) (ainfer p) t end) cases.\n"
                      "Eval vm_compute in failing (fun c => match c with (p, t, b) => wf_prog (tfun t) p end) cases.\n"
                      "Eval vm_compute in failing (fun c => match c with (p, t, b) => weave_ok b p end) cases.\n"
-                     "Eval vm_compute in failing (fun c => match c with (p, t, b) => cert_side p && ainfer_certified p end) cases.\n")
+                     "Eval vm_compute in failing (fun c => match c with (p, t, b) => cert_side p end) cases.\n")
     res = vlib.coq_eval_many("c07l1_", texts, timeout=900)
     for sh, (ok, out) in zip(shards, res):
         lists = vlib.parse_all_eval_lists(out)
